@@ -1,6 +1,8 @@
 import Cherab.Drv.Proto
 import Cherab.Model.Rates
 import Cherab.Gen.OpenAdasPolicy
+import Cherab.Model.Conversion
+import Cherab.Gen.Conversion
 open Cherab.Drv Cherab.Rates
 
 /-!
@@ -260,8 +262,54 @@ def runChain (ts : List String) : String :=
       | some l => showOut (cxChainF (Float.pow 10.0 l) ((fs.map pOptF).zip (clamps ++ List.replicate fs.length true)))
   | _ => "bad-op"
 
+/-- constants environment `name value name value …` -/
+def constsOf : List String → String → Float
+  | n :: v :: rest, k => if n == k then pF v else constsOf rest k
+  | _, _ => 0.0
+
+/-- the hand-written function for `<class>.<to|inv>` (none = not a class of the model) -/
+def handConv (cls : String) (inverse : Bool) (cf x wl : Float) : Option Float :=
+  if cls == "EvAmuToMS" then some (if inverse then Cherab.Conv.evAmuInv cf x else Cherab.Conv.evAmuTo Float.sqrt cf x)
+  else if cls == "PhotonToJ" then some (if inverse then Cherab.Conv.photonInv cf x wl else Cherab.Conv.photonTo cf x wl)
+  else if (Cherab.Conv.modelled.any fun c => c.name == cls) then
+    some (if inverse then Cherab.Conv.factorInv cf x else Cherab.Conv.factorTo cf x)
+  else none
+
+/-- `cv <class> <to|inv> <x> <wavelength> <cf>` : the GENERATED return expression (method resolution along the base
+chain) and the hand-written function, both at Float with IEEE `sqrt` -/
+def runConv (ts : List String) : String :=
+  match ts with
+  | [cls, dir, x, wl, cf] =>
+    let inverse := dir == "inv"
+    let g := Cherab.Conv.evalMethod Cherab.Gen.Conversion.conversions cls inverse Float.sqrt (fun _ => 0.0) (pF cf) (pF x) (pF wl)
+    let h := handConv cls inverse (pF cf) (pF x) (pF wl)
+    (match g with | some v => fF v | none => "none") ++ " " ++ (match h with | some v => fF v | none => "none")
+  | _ => "bad-op"
+
+/-- `cvf <class> {name value}*` : the generated `conversion_factor` expression in the given scipy.constants environment,
+then the hand-written factor -/
+def runConvFactor (ts : List String) : String :=
+  match ts with
+  | cls :: env =>
+    let c := constsOf env
+    let g := Cherab.Conv.evalFactor Cherab.Gen.Conversion.conversions cls c
+    let h : Option Float :=
+      if cls == "EvAmuToMS" then some (Cherab.Conv.evAmuFactor (c "elementary_charge") (c "atomic_mass"))
+      else if cls == "PhotonToJ" then some (Cherab.Conv.hc9 (c "Planck") (c "speed_of_light"))
+      else Cherab.Conv.evalFactor Cherab.Conv.modelled cls c
+    (match g with | some v => fF v | none => "none") ++ " " ++ (match h with | some v => fF v | none => "none")
+  | _ => "bad-op"
+
+/-- `cvt` : class names of the generated table, then those with a statement the translator does not read -/
+def convTable : String :=
+  ",".intercalate (Cherab.Gen.Conversion.conversions.map (·.name)) ++ " not-understood:" ++
+    ",".intercalate Cherab.Gen.Conversion.notUnderstood
+
 def step (ts : List String) : String :=
   match ts with
+  | "cv" :: rest => runConv rest
+  | "cvf" :: rest => runConvFactor rest
+  | ["cvt"] => convTable
   | ["deviants"] => deviants
   | "cxf" :: rest => runChain rest
   | "rate" :: rest => runRate rest
